@@ -170,3 +170,81 @@ Proof. exact cb_infinite_iff. Qed.
 Print Assumptions infinite_iff_cell_bounding.
 Example infinite_iff_cell_bounding_nonvacuous : sv_displacement (cb_displacement (-1) 3) 1 = None.
 Proof. resolve. reflexivity. Qed.
+
+(** Mexican-hat potentials (Lennard-Jones, displaced even power): building blocks of the partial theorem
+    displacement_inverts_mexhat_partial (see the header): the code's _potential is the energy, and the two inverse
+    functions used by the four geometric cases are correct on their side of the minimum. *)
+Theorem potential_is_energy_lennard_jones : forall k sigma r2 : R,
+  0 < r2 -> lj_pot k sigma r2 = lj_U k sigma (sqrt r2).
+Proof. exact lj_pot_U. Qed.
+Print Assumptions potential_is_energy_lennard_jones.
+Example potential_is_energy_lennard_jones_nonvacuous : (0 : R) < 3 / 2. Proof. lra. Qed.
+
+Theorem invert_outside_minimum_lennard_jones_partial : forall k sigma U rn : R,
+  0 < k -> 0 < sigma -> - k / 4 <= U ->
+  lj_inv_out k sigma U = Some rn -> U < 0 /\ lj_pot k sigma (rn * rn) = U.
+Proof. exact lj_invert_outside. Qed.
+Print Assumptions invert_outside_minimum_lennard_jones_partial.
+Example invert_outside_minimum_lennard_jones_partial_nonvacuous : lj_inv_out 1 1 (- 1 / 8) <> None.
+Proof. resolve. discriminate. Qed.
+
+Theorem invert_inside_minimum_lennard_jones_partial : forall k sigma U : R,
+  0 < k -> 0 < sigma -> - k / 4 <= U ->
+  let rn := lj_inv_in k sigma U in lj_pot k sigma (rn * rn) = U.
+Proof. exact lj_invert_inside. Qed.
+Print Assumptions invert_inside_minimum_lennard_jones_partial.
+Example invert_inside_minimum_lennard_jones_partial_nonvacuous : - (1 : R) / 4 <= 3. Proof. lra. Qed.
+
+Theorem invert_outside_minimum_displaced_even_power_partial : forall (k r0 : R) (p : nat) (U rn : R),
+  0 < k -> 0 <= r0 -> (0 < p)%nat -> 0 < U ->
+  dep_inv_out k r0 p U = Some rn -> r0 < rn /\ dep_pot k r0 p (rn * rn) = U.
+Proof. exact dep_invert_outside. Qed.
+Print Assumptions invert_outside_minimum_displaced_even_power_partial.
+Example invert_outside_minimum_displaced_even_power_partial_nonvacuous : dep_inv_out 1 1 2 (1 / 4) <> None.
+Proof. discriminate. Qed.
+
+Theorem invert_inside_minimum_displaced_even_power_partial : forall (k r0 : R) (p : nat) (U : R),
+  0 < k -> (0 < p)%nat -> Nat.Even p -> 0 < U -> U <= k * r0 ^ p -> 0 < r0 ->
+  let rn := dep_inv_in k r0 p U in
+  0 <= rn < r0 /\ dep_pot k r0 p (rn * rn) = U.
+Proof. exact dep_invert_inside. Qed.
+Print Assumptions invert_inside_minimum_displaced_even_power_partial.
+Example invert_inside_minimum_displaced_even_power_partial_nonvacuous :
+  Nat.Even 2 /\ (1 / 4 : R) <= 1 * 1 ^ 2.
+Proof. split; [exists 1%nat; reflexivity | lra]. Qed.
+
+(** one of the four geometric cases, fully: in front of the target and outside the minimum sphere, for ANY Mexican
+    hat whose potential increases outside the minimum and whose outside-inverse is correct; instantiated for the
+    displaced even power potential (the other three cases compose this one with the inside pieces: partial) *)
+Theorem displacement_inverts_mexhat_front_outside_partial :
+  forall (m : mexhat) (dE x q d : R) (bs : list R),
+  (forall a b, mh_r0sq m <= a -> a < b -> mh_pot m a < mh_pot m b) ->
+  (forall U rn, mh_pot m (mh_r0sq m) < U -> mh_inv_out m U = Some rn ->
+                0 <= rn /\ mh_r0sq m <= rn * rn /\ mh_pot m (rn * rn) = U) ->
+  x <= 0 -> mh_r0sq m <= q + x * x -> 0 < dE -> 0 <= q ->
+  List.Forall (fun b => b <= 0) bs ->
+  mh_front_outside m (mh_pot m (q + x * x)) dE x q = Some d ->
+  0 < d /\
+  mh_pot m (q + (x - d) * (x - d)) = mh_pot m (q + x * x) + dE /\
+  Eplus (fun s => mh_pot m (q + (x - s) * (x - s))) bs d = dE.
+Proof. exact mh_front_outside_inverts. Qed.
+Print Assumptions displacement_inverts_mexhat_front_outside_partial.
+
+Theorem displacement_inverts_displaced_even_power_front_outside_partial :
+  forall (k r0 : R) (p : nat) (dE x q d : R),
+  0 < k -> 0 < r0 -> (0 < p)%nat ->
+  x <= 0 -> r0 * r0 <= q + x * x -> 0 < dE -> 0 <= q ->
+  mh_front_outside (dep_mexhat k r0 p) (dep_pot k r0 p (q + x * x)) dE x q = Some d ->
+  0 < d /\
+  dep_pot k r0 p (q + (x - d) * (x - d)) = dep_pot k r0 p (q + x * x) + dE /\
+  Eplus (fun s => dep_pot k r0 p (q + (x - s) * (x - s))) (breaks_mexhat x q r0) d = dE.
+Proof. exact dep_front_outside_inverts. Qed.
+Print Assumptions displacement_inverts_displaced_even_power_front_outside_partial.
+(** non-vacuity of both (the second instantiates the hypotheses of the first) *)
+Example displacement_inverts_displaced_even_power_front_outside_partial_nonvacuous :
+  mh_front_outside (dep_mexhat 1 1 2) (dep_pot 1 1 2 (1 / 4 + (-2) * (-2))) (1 / 2) (-2) (1 / 4) <> None
+  /\ (1 : R) * 1 <= 1 / 4 + (-2) * (-2).
+Proof. split; [discriminate | lra]. Qed.
+Example displacement_inverts_mexhat_front_outside_partial_nonvacuous :
+  (forall a b, mh_r0sq (dep_mexhat 1 1 2) <= a -> a < b -> mh_pot (dep_mexhat 1 1 2) a < mh_pot (dep_mexhat 1 1 2) b).
+Proof. intros a b Ha Hab. simpl in *. apply dep_pot_increasing_outside; try lra. repeat constructor. Qed.
